@@ -149,6 +149,11 @@ def check_aes(pid, tier, replay=None):
         rounds = 1 if tier == "quick" else 4
         sj = [("gcm", f, s * 31 + 7, 1400 * rounds, 3000) for f in whats["gcm"] for s in seeds]
         results += aescheck.sweep(drv, sj, env={"VERIF_GCM_SWEEP": "1"})
+    if pid == "C02":
+        # one-shot counter-carry sweep: 331 block counts (200..530) so that the 8-bit counter shortcut wraps at every phase
+        rounds = 1 if tier == "quick" else 4
+        sj = [("gcm", f, s * 37 + 11, 420 * rounds, 9000) for f in whats["gcm"] for s in seeds]
+        results += aescheck.sweep(drv, sj, env={"VERIF_GCM_SWEEP": "2"})
     total, hist, fam_ops = 0, {}, {}
     for r in results:
         key = "%s/%s" % (r["what"], r["fam"]) + ("/carry-sweep" if r.get("env") else "")
@@ -883,7 +888,23 @@ def check_wrap(pid, tier, replay=None):
     W = WRAP_PROPS[pid]
     chk = vlib.Check(pid, tier)
     bd, bf, gen = wrap_generate()
-    lean_failed = vlib.lean_obligations(chk, W["module"], W["thms"], extra_targets=["wrap_model"])
+    thms, targets = list(W["thms"]), ["wrap_model"]
+    if pid == "C13":
+        # the gate `if (isal_self_tests()) return ERR_SELF_TEST` is abstract in the wrapper model; that it returns 0 only
+        # after the self tests ran and passed is C17's generated obligation: re-checked here against the same tree
+        import gen_selftest
+        gen_selftest.main(["--quiet"])
+        targets.append("IsalVerif.GenProps.SelfTestRet")
+    lean_failed = vlib.lean_obligations(chk, W["module"], thms, extra_targets=targets)
+    if pid == "C13" and not lean_failed:
+        gate = ["IsalVerif.GenProps.SelfTest.sim_ok", "IsalVerif.GenProps.SelfTest.closed_world_ok",
+                "IsalVerif.GenProps.SelfTest.return_values_ok", "IsalVerif.GenProps.SelfTest.C17_generated"]
+        ax, raw = vlib.print_axioms("IsalVerif.GenProps.SelfTestRet", gate)
+        for t in gate:
+            good = ax.get(t) is not None and set(ax[t]) <= vlib.ALLOWED_AXIOMS
+            chk.oblige("lean(gate, C17):" + t, good, "axioms=%s" % (ax.get(t),))
+            if not good:
+                lean_failed.append((t, "axioms=%s" % (ax.get(t),)))
     model = os.path.join(vlib.LEAN, ".lake", "build", "bin", "wrap_model")
     if not os.path.exists(model):
         ok, out = vlib.lake_build(["wrap_model"])
